@@ -34,6 +34,9 @@ INITS = [b"", b"a", b"0123", b"ab\ncd\n\nef"]
 TOLERATED = {"readline_zero", "writelines_empty_readonly"}
 MAXVIOL = 6
 LEANCHECKER_MODULES = ["FsProofs.C16"]
+# Mode predicates regenerated from fs/mode.py by harness/extract/modegen.py, proved equal to File.Mode.* / Ref.parseBinMode
+EXTRA_PROOF_MODULES = ("FsProofs.ModeGenEq",)
+MODEGEN_STATUS = os.path.join(vlib.LEAN, "FsModel", "Generated", "ModeGen.status.json")
 
 # ----------------------------------------------------------------------------- ops
 
@@ -775,9 +778,35 @@ def check_modes(rep, drv, T):
     rep.programs += len(strings)
 
 
+def translator_status(rep):
+    """what harness/extract/modegen.py did on this run (evidence); one deferred broken obligation per refusal.
+    FsProofs/ModeGenEq.lean proves the generated predicates equal to File.Mode.* (what `mode.flags` executes),
+    so check_modes below is also the differential validation of the generated definitions."""
+    try:
+        with open(MODEGEN_STATUS) as fh:
+            st = json.load(fh)
+    except (OSError, ValueError) as ex:
+        rep.extra["modegen"] = {"status": "missing", "error": str(ex)}
+        rep.violation({"broken_obligation": "ModeGen.translate(<module>)", "error": str(ex)},
+                      "ModeGen.translate(<module>): the translator left no status file (%s)" % ex,
+                      found_input=False, signature="C16/ModeGen.translate(<module>)")
+        return
+    rep.extra["modegen"] = {
+        "source": st.get("source"), "class": st.get("class"), "translated": st.get("translated", []),
+        "methods_not_translated": st.get("not_translated", []),
+        "refused": [r["obligation"] + ": " + r["message"] for r in st.get("refused", [])],
+    }
+    for r in st.get("refused", []):
+        rep.violation({"broken_obligation": r["obligation"], "function": r["function"], "node": r["node"], "message": r["message"]},
+                      "%s: the source-to-Lean translator refused (%s); FsProofs.ModeGenEq no longer builds, the mode "
+                      "correspondence and the oracle found no failing input" % (r["obligation"], r["message"]),
+                      found_input=False, signature="C16/%s" % r["obligation"])
+
+
 def run(rep, tier, seed, deep=False):
     drv = vlib.Driver()
     quick = tier == "quick"
+    translator_status(rep)
     targets = TARGETS
     n3, nlong, nbio = (20000, 1500, 4000) if quick else (250000, 20000, 40000)
     if deep:
